@@ -760,7 +760,9 @@ def get_pyrange(loop_range: sym.LoopRange):
     LEM = LokiEvaluationMapper()
     if loop_range.step is None:
         return range(LEM(loop_range.start), floor(LEM(loop_range.stop))+1)
-    return range(LEM(loop_range.start), floor(LEM(loop_range.stop))+1, LEM(loop_range.step))
+    step = LEM(loop_range.step)
+    # The Fortran upper bound is inclusive, also for descending loops
+    return range(LEM(loop_range.start), floor(LEM(loop_range.stop)) + (1 if step > 0 else -1), step)
 
 
 
